@@ -483,8 +483,15 @@ def rule_PK(ctx):
                        'embedded values and pack() with separate values can build different bits', loc='bitstring/')
             else:
                 r.ok(f'{name}->{need}', {'instance': name, 'uses': need})
-    def direct_callees(f, c):
-        return {g.key for cs in ctx.R.analyse(f, c).calls for (g, _) in cs.targets}
+    def direct_callees(f, c, depth=2):
+        # the routine and the private helpers of its own class/module it is cut into
+        out = set()
+        for cs in ctx.R.analyse(f, c).calls:
+            for (g, c2) in cs.targets:
+                out.add(g.key)
+                if depth > 0 and g.name.startswith('_') and not g.name.startswith('__') and g.mod == f.mod and g.key != f.key:
+                    out |= direct_callees(g, c2, depth - 1)
+        return out
     for name, reach in (('tokenparser', direct_callees(tp, None)), ('unpack/readlist', direct_callees(rl, 'Bits'))):
         if 'utils:preprocess_tokens' not in reach and 'utils:tokenparser' not in reach:
             r.fail(tp.key if name == 'tokenparser' else rl.key, f'{name}: preprocess_tokens', f'{name} no longer uses preprocess_tokens: brackets, multipliers and '
